@@ -1,27 +1,11 @@
 #![no_main]
 use libfuzzer_sys::fuzz_target;
-use swiftmt_verif::choice::Src;
-use swiftmt_verif::lib_api::MSGS;
-use swiftmt_verif::props::c07::{TotalCase, damage_json};
 mod common;
 
-// bytes -> choices: pick a type, take the JSON of its minimal valid message, damage up to 3 places
+// input decoding: swiftmt_verif::props::c07::decode_fuzz_input("fz_json", bytes)
 fuzz_target!(|data: &[u8]| {
-    if data.len() < 8 {
-        return;
-    }
     let _ = common::ctx();
-    let choices: Vec<u32> = data.chunks(4).map(|c| { let mut b = [0u8; 4]; b[..c.len()].copy_from_slice(c); u32::from_le_bytes(b) }).collect();
-    let mut src = Src::new(&choices);
-    let mt = MSGS[src.below(MSGS.len())].mt;
-    let body = swiftmt_verif::props::c10::minimal_body(mt);
-    let text = format!("{{1:F01BANKDEFFAXXX0000000000}}{{2:I{}BANKUS33AXXXN}}{{3:{{108:MUR}}{{121:9690a785-2ed8-4101-a5e2-35f94f151d1d}}}}{{4:\n{}-}}{{5:{{CHK:123456789ABC}}}}", mt, body);
-    let mut v = match (swiftmt_verif::lib_api::msg_ops(mt).parse_full)(&text) {
-        Ok(m) => m.json,
-        Err(_) => return,
-    };
-    for _ in 0..(1 + src.below(3)) {
-        damage_json(&mut v, &mut src);
+    if let Some(case) = swiftmt_verif::props::c07::decode_fuzz_input("fz_json", data) {
+        common::judge(case);
     }
-    common::judge(TotalCase { kind: "json".into(), target: mt.to_string(), input: v.to_string(), mutation: "libfuzzer".into() });
 });
